@@ -258,13 +258,10 @@ static int pick_next(void)
 			else s->now += 1;   /* defensive: never spin */
 			continue;
 		}
-		if (!s->quiesced) {
-			s->quiesced = 1;
-			s->probes[PR_QUIESCED]++;
-			sim_trace(EV_QUIESCE, 0, 0);
-			if (s->on_quiesce) s->on_quiesce();
-			continue;
-		}
+		/* quiescent: the handler may release held traffic or close the
+		 * connections (what a peer timeout does); 0 = nothing left to try */
+		sim_trace(EV_QUIESCE, 0, 0);
+		if (!s->abort && s->on_quiesce && s->on_quiesce()) continue;
 		s->abort = 1;
 	}
 }
@@ -333,6 +330,30 @@ void sim_sleep(int64_t ns)
 	me->state = ST_SLEEPING;
 	me->wake_at = g_sim.now + ns;
 	handoff_from(me);
+}
+
+/* A task that got EAGAIN and now sleeps before retrying is, for the purpose
+ * of quiescence detection, blocked on the condition it waits for: otherwise a
+ * peer that stalls forever would keep the retry loop (and simulated time)
+ * running without end.  Time still advances by at least `ns`. */
+void sim_retry_wait(int64_t ns)
+{
+	Task *me = sim_cur();
+	if (!me) return;
+	WaitPred pred = me->retry_pred; void *arg = me->retry_arg;
+	me->retry_pred = NULL;
+	if (!pred || pred(arg)) { sim_sleep(ns); return; }
+	int64_t t0 = g_sim.now;
+	(void)sim_block(pred, arg);
+	if (g_sim.now < t0 + ns) {
+		/* woken by an event earlier than the sleep would have ended */
+		int64_t rest = t0 + ns - g_sim.now;
+		sim_sleep(rest);
+	} else {
+		/* round up to the retry granularity */
+		int64_t over = (g_sim.now - t0) % ns;
+		if (over) sim_sleep(ns - over);
+	}
 }
 
 void sim_abort_run(void) { g_sim.abort = 1; }
